@@ -600,6 +600,18 @@ fn probe(dir: &str) {
     }
 }
 
+/// Triage helper for pinning known findings: `VP_PIN=<signature>` makes failures of that class carry an unknown signature
+/// (`<signature>#pin`) so that the runner shrinks them and writes a case file even though the class is listed as known.
+fn pin(sig: &str) -> String {
+    match std::env::var("VP_PIN") {
+        Ok(p) if p == sig => format!("{sig}#pin"),
+        _ => sig.to_string(),
+    }
+}
+fn pinning() -> bool {
+    std::env::var_os("VP_PIN").is_some()
+}
+
 fn main() {
     if let Ok(dir) = std::env::var("C37_PROBE") {
         probe(&dir);
@@ -610,6 +622,8 @@ fn main() {
     ck.assume(&format!("oracle: {} check-ignore -v -n -z --no-index --stdin, one call per world, empty index", Git::version()));
     ck.assume("patterns whose first character (after '!') is '$' are not generated: gitoxide documents '$' as its own 'precious file' syntax extension, which git 2.39 does not have");
     ck.assume("upper-case letters inside bracket expressions are not generated (with core.ignoreCase they fall into the wildmatch case-folding deviation recorded under C36); POSIX classes are left to C36");
+    ck.assume("a non-directory path is never used as leading directory of another query on the same stack (gix_fs::Stack requires terminal paths); such paths are queried on a stack of their own");
+    ck.assume("disagreements that belong to a recorded deviation class (signatures in known_findings.json, decided by explicit predicates) fail the world only in 1 of 4 worlds ('strict-world'); in the other worlds they are tolerated and counted as 'tolerated:<signature>' labels so that the rest of the world is still compared; any other disagreement fails in every world");
     ck.assume("core.excludesFile is always configured (possibly pointing to a missing file) so that neither implementation falls back to the XDG location");
 
     ck.sub(
@@ -622,6 +636,11 @@ fn main() {
             // the entry exists, VIOLATION otherwise); in the others they are tolerated and counted as labels. Any
             // disagreement outside these classes fails at once in every world.
             let strict = t.chance(64);
+            if pinning() && !strict {
+                // pinned tapes must fail when replayed without VP_PIN: only strict worlds may be shrunk
+                c.discard();
+                return;
+            }
             c.label(if strict { "strict-world" } else { "tolerant-world" });
             let spec = gen_spec(t, c);
             c.key(&spec);
@@ -879,7 +898,7 @@ fn main() {
             c.nontrivial(any_negative || sources.len() >= 2);
             c.sample_with(|| describe_world(&spec, &b));
             if let Some((sig, msg)) = deferred {
-                c.fail_sig(sig, msg);
+                c.fail_sig(&pin(sig), msg);
             }
         },
     );
